@@ -40,7 +40,8 @@ ASSUMPTIONS = [
     "puan_rspy 0.3.0 (py_optimized_bit_allocation_64) is part of the system under test",
     "3-D input is only checked as a stack over axis 0 (the caller's form): relations of the statement for 'shadow'; for "
     "'first'/'last'/'prio'/'rank' the result must equal the per-matrix 2-D results in member order (for first/last the "
-    "literal reading - compress across the members - is accepted as well); other axes of 3-D input are undocumented",
+    "literal reading - compress across the members - is accepted as well); 'min' / 'max' have no stack form and are checked on "
+    "3-D input along each axis (numpy's reduction); other axes of 3-D input for the stack methods are undocumented",
     "1-D input with axis=0 is only checked for 'shadow', 'min' and 'max'; for 'first'/'last'/'prio'/'rank' the "
     "1-D/axis=0 behaviour is undocumented (identity resp. ranking of raw signed values) and left out",
     "axis=None is checked where the docstring shows it (min, rank, shadow) and for 'prio' via the documented "
@@ -276,6 +277,20 @@ def check_batch(case, ev, methods):
             ok.append([[fn([a[g][r][c] for g in range(len(a))]) for c in range(len(a[0][0]))] for r in range(len(a[0]))])
         if R not in ok:
             raise Violation(f"{m} on a stack of {len(a)} matrices (axis=0): got {R}, the per-matrix results are {per_member}; input {a}")
+    if "first" in methods:
+        # 'min' / 'max' have no stack form: on 3-D input they reduce along the requested axis itself (numpy's min / max),
+        # i.e. the smallest non-zero / the largest entry of every lane along that axis
+        g, r, c_ = len(a), len(a[0]), len(a[0][0])
+        for axis in (0, 1, 2):
+            lanes = {0: [[[a[k][i][j] for k in range(g)] for j in range(c_)] for i in range(r)],
+                     1: [[[a[k][i][j] for i in range(r)] for j in range(c_)] for k in range(g)],
+                     2: [[[a[k][i][j] for j in range(c_)] for i in range(r)] for k in range(g)]}[axis]
+            for m, fn in (("min", _min_nz), ("max", max)):
+                R = np.asarray(call(pnd.integer_ndarray(a).ndint_compress, method=m, axis=axis, what=f"ndint_compress({m}) on 3-D input")).tolist()
+                E = [[fn(l) for l in row] for row in lanes]
+                if R != E:
+                    raise Violation(f"{m} axis={axis} on 3-D input: got {R}, expected {E} ({'smallest non-zero' if m == 'min' else 'largest'} entry of every "
+                                    f"lane along the axis); input {a}")
     flat = _flatten(a)
     differ = len(a) >= 2 and any(a[0] != x for x in a[1:])
     ev.case(case, differ and any(x < 0 for x in flat) and any(x == 0 for x in flat), ["shape=3d/axis=0", f"members={len(a)}"] + (["members_differ"] if differ else []))
